@@ -150,17 +150,25 @@ func H_CompareValues() {
 // (object construction, display form, iteration).
 func H_ProgramsStable() {
 	x := zv.Float64("x")
-	variant := zv.Choose(3)
+	variant := zv.Choose(6)
 	src := []string{
 		"输入X\n定义T：\n    其甲设为1\n    其乙设为2\n    其丙设为3\n令O = （新建T）\n输出 O之甲 * 100 + O之乙 * 10 + O之丙",
 		"输入X\n令D = 【甲=X，乙=2，丙=3】\n令S = 【】\n以K、V遍历D：\n    以S（后增：V）\n输出 S#1",
 		"输入X\n令D = 【甲=X，乙=2，丙=3】\n输出 D之所有值#1",
+		"输入X\n令D = 【甲=X，乙=2，丙=3，丁=4】\n以D（移除：“乙”）\n输出 D之所有值#1",
+		"输入X\n令D = 【丁=4，甲=X，乙=2，丙=3】\n以D（移除：“丁”）\n令E = D\n令S = 【】\n以K、V遍历E：\n    以S（后增：V）\n输出 S#1",
+		"输入X\n令D = 【甲=1，乙=X，丙=3】\n以D（写入：“丁”、4）\n以D（移除：“甲”）\n令K = D之所有索引\n输出 {K#1 为 “乙”} 且 {K#2 为 “丙”} 且 {K#3 为 “丁”}",
 	}[variant]
 	zv.Assume(x == x && x-x == 0)
 	zv.SetMapOrder(1)
 	res, err, p := run(src, r.ElementMap{"X": value.NewNumber(x)})
 	zv.SetMapOrder(0)
 	zv.Assert(p == nil && err == nil, "program runs")
+	if variant == 5 {
+		b, okb := res.(*value.Bool)
+		zv.Assert(okb && b.GetValue(), "program result does not depend on map iteration order")
+		return
+	}
 	n, ok := res.(*value.Number)
 	want := x
 	if variant == 0 {
